@@ -166,13 +166,13 @@ func (a *attemptState) dump() (fakemaster.Command, bool) {
 
 // buildSteps turns a dump request into the fault-free script.
 func buildSteps(l *hist.Layout, req fakemaster.Command, withEOF bool) ([]fakemaster.Step, []int, bool) {
-	payloads, evIdx, ok := l.Served(req.File, int64(req.Pos))
+	payloads, evIdx, files, ok := l.ServedFiles(req.File, int64(req.Pos))
 	if !ok {
 		return []fakemaster.Step{{Payload: fakemaster.ErrPacket(1236, "HY000", "Could not find first log file name in binary log index file"), Tag: -2}}, []int{-2}, false
 	}
 	steps := make([]fakemaster.Step, 0, len(payloads)+1)
 	for i, p := range payloads {
-		steps = append(steps, fakemaster.Step{Payload: fakemaster.EventPacket(p), Tag: evIdx[i]})
+		steps = append(steps, fakemaster.Step{Payload: fakemaster.EventPacket(p), Tag: evIdx[i], Aux: files[i]})
 	}
 	if withEOF {
 		steps = append(steps, fakemaster.Step{Payload: fakemaster.EOFPacket(), Tag: -3})
@@ -371,9 +371,25 @@ func (ss *session) run(at attempt) *attemptState {
 	if fb == 0 {
 		fb = 20 * time.Second
 	}
-	select {
-	case <-st.streamDone:
-	case <-time.After(fb):
+	// The stall clock only runs while the master is idle: as long as it keeps writing packets
+	// (long histories, lock-step pacing on a busy machine) Stream is rightly still working.
+	lastStarted, idleSince := plan.Started(), time.Now()
+	stalled := false
+	for !stalled {
+		select {
+		case <-st.streamDone:
+		case <-time.After(fb / 8):
+			if n := plan.Started(); n != lastStarted {
+				lastStarted, idleSince = n, time.Now()
+			}
+			if time.Since(idleSince) < fb {
+				continue
+			}
+			stalled = true
+		}
+		break
+	}
+	if stalled {
 		st.fellBack = true
 		if at.onStall != nil {
 			at.onStall(st)
